@@ -16,7 +16,7 @@ def waitopen_lines(rnd):
 def gen_c13(rnd, n, thorough=False):
     cases = []
     for c in range(n):
-        kind = rnd.pick(['failed_open', 'failed_open', 'block', 'proc', 'sessions', 'waitopen', 'childhold', 'dblclose', 'lockcreate'])
+        kind = rnd.pick(['failed_open', 'failed_open', 'block', 'proc', 'sessions', 'waitopen', 'childhold', 'dblclose', 'lockcreate', 'recreatewait'])
         lines = []
         if kind == 'failed_open':
             # every way Open can fail after the descriptor was obtained (and a control that succeeds)
@@ -54,6 +54,9 @@ def gen_c13(rnd, n, thorough=False):
             for nm in ('f', 'g'):
                 lines += ["create %s %s m 2 x 3f000000" % (nm, fmt_layout(layout)), "sync %s" % nm, "drop %s" % nm]
             lines += ["dblclose f g", "dblclose g f", "lockblock g"]
+            tags = {'kind': kind}
+        elif kind == 'recreatewait':
+            lines += waitopen_lines(rnd)[:-1] + ["recreatewait w", "lockblock w"]
             tags = {'kind': kind}
         elif kind == 'lockcreate':
             lines += ["lockcreate f", "lockblock f"]
